@@ -181,6 +181,11 @@ func handlerCampaign(g *genState, n int) {
 				p = hostilePayload(g, "ConsensusCommon", "Block", "BlockHashWithVotes", "UconValidators")
 			}
 			data := signedMsg(code, p)
+			if r.Chance(35) {
+				var m string
+				data, m = g.withTail(data)
+				g.res.Count("handler_input:" + m)
+			}
 			res, pan := runHandleMsg(data)
 			g.handlerObs("HandleMsg", data, 0, res, pan)
 			// reject: a payload that does not decode as the type of its code must give an error
@@ -217,7 +222,32 @@ func handlerCampaign(g *genState, n int) {
 	}
 }
 
+// anything after the envelope: a zero byte, garbage, a second complete envelope
+func (g *genState) withTail(data []byte) ([]byte, string) {
+	r := g.r
+	c := append([]byte{}, data...)
+	switch r.Intn(4) {
+	case 0:
+		return append(c, 0x00), "tail:zero-byte"
+	case 1:
+		return append(c, r.Bytes(1+r.Heavy(40))...), "tail:garbage"
+	case 2:
+		return append(c, data...), "tail:second-envelope"
+	default:
+		return append(c, r.Bytes(4096)...), "tail:4k-junk"
+	}
+}
+
 func (g *genState) handlerObs(which string, data []byte, version uint64, res, pan string) {
+	// an envelope that is not exactly one canonical RLP value (reference parser of the
+	// harness) must be rejected: HandleMsg caches and re-gossips its input verbatim
+	if which == "HandleMsg" && pan == "" && !strings.HasPrefix(res, "error") {
+		if _, err := parseAll(data); err != nil {
+			g.res.Count("handler_accepted_noncanonical_envelope")
+			g.hit(hit{What: "handler-accepted-noncanonical-envelope:HandleMsg", Type: "handler:HandleMsg", Bytes: hex.EncodeToString(data),
+				Note: "HandleMsg returned nil for bytes that are not one canonical value; the raw input is what gets cached and relayed"})
+		}
+	}
 	if pan != "" {
 		g.res.Count("handler_panic:" + which)
 		g.hit(hit{What: "panic:handler:" + which, Type: "handler:" + which, Bytes: hex.EncodeToString(data), Note: fmt.Sprintf("version=%d panic=%s", version, pan)})
